@@ -1,2 +1,6 @@
 #!/bin/sh
-exit 0
+# builds the symbolic executor from /verif/engine (offline; x/tools v0.29.0 from the module cache)
+cd "$(dirname "$0")" || exit 1
+export GOFLAGS=-mod=mod GOPROXY=off GOSUMDB=off GOTOOLCHAIN=local
+(cd engine && go build -o ../bin/gosym .) || exit 1
+echo "gosym built"
